@@ -27,7 +27,7 @@ structure WellFormed (ins : List Name) (gates : List (Name × String × List Nam
   names : ∀ n, (n ∈ ins ∨ n ∈ gates.map (·.1) ∨ n ∈ dffs.map (·.1)) → n ≠ "" ∧ Circuit.isDigit0 n = false ∧ ¬ hasDotB n
   defsNodup : (ins ++ gates.map (·.1) ++ dffs.map (·.1)).Nodup
   gateTy : ∀ g ∈ gates, g.2.1 ∈ gateTys
-  gateArity : ∀ g ∈ gates, g.2.2 ≠ [] ∧ g.2.2.Nodup ∧ ((g.2.1 = "buf" ∨ g.2.1 = "not") → g.2.2.length = 1)
+  gateArity : ∀ g ∈ gates, g.2.2 ≠ [] ∧ ((g.2.1 = "buf" ∨ g.2.1 = "not") → g.2.2.length = 1)
   uses : ∀ g ∈ gates, ∀ x ∈ g.2.2, x ∈ ins ∨ x ∈ gates.map (·.1) ∨ x ∈ dffs.map (·.1)
   dffUses : ∀ d ∈ dffs, d.2 ∈ ins ∨ d.2 ∈ gates.map (·.1) ∨ d.2 ∈ dffs.map (·.1)
   outsDef : ∀ o ∈ outs, o ∈ ins ∨ o ∈ gates.map (·.1) ∨ o ∈ dffs.map (·.1)
@@ -45,11 +45,18 @@ theorem build_sem (name : String) (ins : List Name) (gates : List (Name × Strin
     (outs : List Name) (hw : WellFormed ins gates dffs outs) :
     ∃ c, build name (stmtsOf ins gates dffs outs) = .ok c ∧
       (∀ x, x ∈ c.inputs ↔ x ∈ ins) ∧ (∀ x, x ∈ c.outputs ↔ x ∈ outs) ∧
-      (∀ g ∈ gates, c.ty? g.1 = some g.2.1 ∧ (c.fanin g.1).Perm g.2.2) ∧
+      (∀ g ∈ gates, g.2.2.Nodup → c.ty? g.1 = some g.2.1 ∧ (c.fanin g.1).Perm g.2.2) ∧
       (∀ v, Consistent c v → ∀ g ∈ gates, ∀ b, gateFn g.2.1 (g.2.2.map v) = some b → v g.1 = b) ∧
       (∀ d ∈ dffs, c.bbs.lookup (d.1 ++ "_dff") = some dffBB ∧ c.ty? d.1 = some "buf" ∧
           c.fanin (d.1 ++ "_dff.D") = [d.2] ∧ c.fanin d.1 = [d.1 ++ "_dff.Q"]) :=
   BenchP.build_semP name ⟨hw.names, hw.defsNodup, hw.gateTy, hw.gateArity, hw.uses, hw.dffUses, hw.outsDef⟩
+
+/-- regression (K35): in a parity gate an operand given an even number of times cancels — `o = XOR(a, b, a)` is a
+    XOR of `b` alone, `p = XNOR(a, a)` is the constant 1 -/
+example : (build "t" [.input "a", .input "b", .gate "o" "xor" ["a", "b", "a"], .gate "p" "xnor" ["a", "a"],
+      .output "o", .output "p"]).toOption.map
+    (fun c => (c.ty? "o", c.fanin "o", c.ty? "p", c.fanin "p")) = some (some "xor", ["b"], some "1", []) := by
+  decide +kernel
 
 /-- the writer's statements for a lint-clean blackbox-free circuit with at least one input and no `x` constants -/
 structure Writable (c : Circuit) : Prop where
